@@ -22,9 +22,9 @@ LEVEL = "fault_enumeration"
 JAIL = True
 PY = sys.executable
 
-HISTORIES = [("expunge", ""), ("deletebox", ""), ("renameinbox", ""), ("messages", ""), ("namespace", ""), ("inboxpack", ""), ("startup", ""), ("startup", "preexisting"), ("messages", "preexisting"),
+HISTORIES = [("expunge", ""), ("deletebox", ""), ("renameinbox", ""), ("quietexpunge", ""), ("messages", ""), ("namespace", ""), ("inboxpack", ""), ("startup", ""), ("startup", "preexisting"), ("messages", "preexisting"),
              ("startup", "schema0"), ("startup", "schema1"), ("startup", "schema2"), ("startup", "schema3"), ("startup", "schema4"), ("startup", "schema5")]
-QUICK = [("expunge", ""), ("deletebox", ""), ("renameinbox", ""), ("messages", ""), ("namespace", ""), ("startup", ""), ("startup", "schema1"), ("startup", "schema4"), ("inboxpack", "")]
+QUICK = [("expunge", ""), ("deletebox", ""), ("renameinbox", ""), ("quietexpunge", ""), ("messages", ""), ("namespace", ""), ("startup", ""), ("startup", "schema1"), ("startup", "schema4"), ("inboxpack", "")]
 
 
 def run_child(scratch, hist, variant, k, tag, points=False):
@@ -42,11 +42,11 @@ def run_child(scratch, hist, variant, k, tag, points=False):
     return d, ledger, pts, rc, err
 
 
-def run_recover(scratch, d, ledger, tag, deliver, dry_ledger=None):
+def run_recover(scratch, d, ledger, tag, deliver, dry_ledger=None, again=False):
     result = os.path.join(scratch, f"{tag}", "recovery.json")
     env = dict(os.environ, PYTHONHASHSEED="0", PYTHONDONTWRITEBYTECODE="1")
     try:
-        r = subprocess.run([PY, "-B", "-m", "asimap_verif.crash", "recover", d, ledger, result, "deliver" if deliver else "-", dry_ledger or "-"], env=env, capture_output=True, timeout=90)
+        r = subprocess.run([PY, "-B", "-m", "asimap_verif.crash", "recover", d, ledger, result, "deliver" if deliver else "-", dry_ledger or "-", "again" if again else "-"], env=env, capture_output=True, timeout=120)
         err = r.stderr.decode("latin-1")[-600:]
     except subprocess.TimeoutExpired:
         return None, "recovery process timed out (inconclusive)"
@@ -164,7 +164,9 @@ def run_syscall_shard(spec):
             counts["syskill_at:" + pk] += 1
             counts["syscall_kills"] += 1
             deliver = (k % 4 == 0) and hist != "startup"
-            res, rerr = run_recover(scratch, d, ledger, tag, deliver, keep)
+            again = (k % 2 == 1) and hist != "startup"
+            counts["recoveries_killed_again_before_any_command"] += 1 if again else 0
+            res, rerr = run_recover(scratch, d, ledger, tag, deliver, keep, again=again)
             spec_k = dict(spec, only_k=k)
             sample = {"history": hist, "variant": variant, "lane": lane, "kill_before_syscall": k, "syscall": last[:160], "deliver_while_down": deliver}
             key = f"{hist}/{variant}/{lane}/{sc}/{pk}/{(res or {}).get('model_step')}"
@@ -174,7 +176,7 @@ def run_syscall_shard(spec):
                 counts["recoveries_checked"] += 1
                 cases.append(Case.make(f"{hist}/{variant}:{lane}:s{k}", VIOLATED, spec=spec_k, nontrivial=pk != "other", key=key, sample=sample,
                                        witness={"kind": res["problems"][0][0], "detail": res["problems"][0][1], "all": [p[0] for p in res["problems"]], "history": hist, "variant": variant, "lane": lane, "k": k,
-                                                "syscall": last[:200], "killed_at": pk, "inflight": res.get("inflight"), "deliver_while_down": deliver, "model_step": res.get("model_step")}))
+                                                "syscall": last[:200], "killed_at": pk, "inflight": res.get("inflight"), "deliver_while_down": deliver, "model_step": res.get("model_step"), "mtime_not_newer": res.get("mtime_not_newer")}))
             else:
                 counts["recoveries_checked"] += 1
                 counts["oracle_checks"] += res.get("checks", 0) or 0
@@ -233,10 +235,12 @@ def run_shard(spec):
             shutil.rmtree(os.path.join(scratch, tag), ignore_errors=True)
             continue
         deliver = ((k % 3 == 0) or hist == "expunge") and hist != "startup"
-        res, rerr = run_recover(scratch, d, ledger, tag, deliver, keep)
+        again = ((k % 2 == 1) or hist == "quietexpunge") and hist != "startup"
+        counts["recoveries_killed_again_before_any_command"] += 1 if again else 0
+        res, rerr = run_recover(scratch, d, ledger, tag, deliver, keep, again=again)
         inside = first_cmd.get(cmdlabel, 0) < k <= last_cmd.get(cmdlabel, 0)
         spec_k = dict(spec, only_k=k)
-        sample = {"history": hist, "variant": variant, "kill_before_point": k, "of": n, "point": list(pt[1:]), "deliver_while_down": deliver}
+        sample = {"history": hist, "variant": variant, "kill_before_point": k, "of": n, "point": list(pt[1:]), "deliver_while_down": deliver, "killed_again_before_any_command": again}
         key = f"{hist}/{variant}/{k}"
         if res is None or res.get("harness_error"):
             cases.append(Case.make(f"{hist}/{variant}:k{k}", INCONCLUSIVE, spec=spec_k, reason=rerr if res is None else "recovery harness error: " + res["harness_error"][-300:], sample=sample))
@@ -244,7 +248,7 @@ def run_shard(spec):
             counts["recoveries_checked"] += 1
             cases.append(Case.make(f"{hist}/{variant}:k{k}", VIOLATED, spec=spec_k, nontrivial=inside, key=key, sample=sample,
                                    witness={"kind": res["problems"][0][0], "detail": res["problems"][0][1], "all": [p[0] for p in res["problems"]], "history": hist, "variant": variant, "k": k, "of": n,
-                                            "point": list(pt[1:]), "inflight": res.get("inflight"), "deliver_while_down": deliver, "model_step": res.get("model_step")}))
+                                            "point": list(pt[1:]), "inflight": res.get("inflight"), "deliver_while_down": deliver, "model_step": res.get("model_step"), "mtime_not_newer": res.get("mtime_not_newer")}))
         else:
             counts["recoveries_checked"] += 1
             counts["oracle_checks"] += res.get("checks", 0) or 0
@@ -264,7 +268,7 @@ def plan(tier, seed, scale):
             parts = 4
         for part in range(parts):
             sp = {"prop": PROP, "tier": tier, "seed": seed, "hist": hist, "variant": variant, "part": part, "parts": parts, "scripts": [0]}
-            if tier == "quick" and hist not in ("startup", "expunge", "deletebox", "renameinbox"):
+            if tier == "quick" and hist not in ("startup", "expunge", "deletebox", "renameinbox", "quietexpunge"):
                 sp["limit"] = int(30 * scale)
             specs.append(sp)
     # syscall-level lanes (strace fault injection)
@@ -307,10 +311,13 @@ def classify(w):
         return "C11-kill-inside-mh-sequences-rewrite-loses-flags"
     if infl == "rename_inbox" and kinds <= {"acknowledged-flags-lost"}:
         return "C11-kill-inside-rename-inbox-loses-flags-of-moved-messages"
-    if infl == "rename_inbox" and kinds and kinds <= {"fetch-failed-after-restart", "mailbox-not-selectable"} and (w.get("detail") or "").startswith("INBOX:"):
-        # killed inside RENAME INBOX; the restart skipped the resync of INBOX because the folder's mtime (one-second
-        # granularity) was not newer than the stored one: INBOX still lists messages that have been moved out
-        return "C11-same-second-mtime-hides-interrupted-rename-inbox"
+    box = (w.get("detail") or "").split(":", 1)[0]
+    if (infl in ("rename_inbox", "expunge", "move", "close", "delete") and kinds and kinds <= {"fetch-failed-after-restart", "mailbox-not-selectable"}
+            and box and box in (w.get("mtime_not_newer") or [])):
+        # killed inside a command that removes messages from this mailbox; when the server came back the folder's
+        # mtime (one-second granularity) was not newer than the stored one, so it did not look at the folder and
+        # still lists messages that are gone
+        return "C11-same-second-mtime-hides-interrupted-removal"
     if (w.get("kind") == "revealed-uid-denotes-other-message" and w.get("all") and set(w["all"]) == {"revealed-uid-denotes-other-message"} and w.get("deliver_while_down")
             and "now lateDelivery" in (w.get("detail") or "") and (w.get("inflight") or {}).get("kind") in ("expunge", "move", "rename_inbox", "delete", "close")):
         return "C11-key-reuse-while-down-after-interrupted-removal"
